@@ -211,7 +211,7 @@ def main(argv):
             n = int(2500 * a.scale)
         else:
             cfgs = (a.configs.split(",") if a.configs else ALL_CONFIGS)
-            n = int(80000 * a.scale)
+            n = int(200000 * a.scale)
         exes = build_many(cfgs)
         m = run_sharded("c10", "gen", (curves, n // NCPU + 1, 2 if a.tier == "quick" else 1), [(c, exes[c]) for c in cfgs], a.seed, timeout=3600)
         rep.merge(m)
